@@ -117,6 +117,23 @@ CLAIMED = {
             "constructs are translation failures); untrusted certificate search (sympy) — only the checked certificate counts; Hasse's "
             "theorem is a hypothesis of the reading 'h*r is the curve order'.",
             "DESIGN.md §6 (C18)"),
+    "C20": ("Translator (C text of the masked copy/swap/compare primitives -> a branch-free language, regenerated on every run) + Lean 4 "
+            "non-interference theorem for that language + instrumented ladder / regular-recoding models proved value-equal to the C03 models "
+            "with logs depending on lengths only + operation logs recorded from the real library by linker interposition",
+            "Proved in Lean: (1) every program of the branch-free language (no conditional statement; loop bounds and array indices are "
+            "public expressions) has a trace of loop counts and array indices that depends only on its public inputs; dv_copy_sec, "
+            "dv_swap_sec, dv_cmp_sec, util_cmp_sec are re-translated from the C text on every run and lie in the language (an added branch, "
+            "early exit, call or data-dependent index is a translation failure); (2) the instrumented Montgomery ladder and regular-recoding "
+            "loops compute exactly the values of the C03 models (which are proved to return k*P) and emit an operation log that is a closed "
+            "form of the public lengths. Tie: the generated programs are executed on the same data as the real primitives (both bit values, "
+            "lengths 0..40); the logs of group-level calls made by ep_mul_monty, ep_mul_lwreg (plain and GLV), ep2_mul_monty, eb_mul_lodah, "
+            "bn_mxp_monty, fp_exp_monty, fb_exp_monty are recorded from the library for scalars of every shape named in the property on every "
+            "curve and compared with the model log and with the value k*P. PARTIAL: GLV / exponentiation / Lopez-Dahab logs are closed forms "
+            "tied by comparison only; ep2_mul_lwreg, Edwards and the pc_*_sec wrappers are not covered; nothing is claimed below the group "
+            "level or about the compiler's code generation.",
+            "Trusted: Lean kernel; tools/translate_ct.py; the C compiler (ternary of constants -> setcc/cmov); linker interposition sees only "
+            "calls that cross object files; k = 0, P = O and the sign of an exponent are treated as public.",
+            "DESIGN.md §6 (C20)"),
 }
 
 PENDING_REASON = {
